@@ -17,6 +17,10 @@ if TYPE_CHECKING:
     from scriptplan.core.task import Task
 
 
+# Remaining slot time below this many seconds is a rounding residue, not free time
+SLOT_SECONDS_EPSILON = 1e-6
+
+
 class ResourceScenario(ScenarioData):
     """
     Scenario-specific data for a Resource.
@@ -372,7 +376,9 @@ class ResourceScenario(ScenarioData):
         """
         slot_duration: float = self.project.attributes.get("scheduleGranularity", 3600)
         seconds_used = self.slotSecondsUsed.get(sb_idx, 0.0)
-        return float(max(0.0, slot_duration - seconds_used))
+        remaining = float(max(0.0, slot_duration - seconds_used))
+        # A floating point residue of a released slot is not bookable time
+        return remaining if remaining > SLOT_SECONDS_EPSILON else 0.0
 
     def markSlotPartiallyUsed(self, sb_idx: int, seconds_used: float) -> None:
         """
